@@ -361,6 +361,7 @@ func stdData() map[string]interface{} {
 		"m": map[string]interface{}{"a": int64(1), "b": "x<y", "c": map[string]interface{}{"d": int64(4)}, "f": 1.5},
 		// lists inside maps and maps inside lists: access chains that mix keys and indexes
 		"ml": map[string]interface{}{"a": []interface{}{int64(10), int64(20)}, "k": map[string]interface{}{"0": "zero", "x": int64(9)}},
+		"me": map[string]interface{}{"": "empty-key", "a": int64(1)},
 		"lm": []interface{}{map[string]interface{}{"foo": int64(1), "k": "v"}, map[string]interface{}{"foo": int64(2), "l": []interface{}{int64(7)}}},
 	}
 }
@@ -548,6 +549,10 @@ func genC01eval(g *G) {
 		// chains that mix key and index accesses, well-typed and not: each access is judged on its own
 		"$ml.a[0]", "$ml.a.1", "$ml['a'][1]", "$ml.k.x", "$ml.k['0']", "$lm[0].foo", "$lm.1.foo", "$lm[1].l[0]", "$lm[0]['k']",
 		"$ml.k[0]", "$ml.k.0", "$ml.a.k", "$ml.a['k']", "$m.a[0]", "$m.c[0]", "$m.c.d[0]", "$l[1].foo", "$l.1['k']", "$lm[0][1]", "$lm.0.1", "$lm[1].l.foo", "$ll[1][0].x", "$ll[0].x", "$ml['k'].0",
+		// no space between a comparison and a unary minus / not
+		"$i<-1", "$i>-1", "$j<-$i", "$j>-$i", "1<-1 ? 'a' : 'b'", "$i>=-7", "$i<=-7", "$i==-7", "$i!=-7", "$f<-0.5", "-$i<-$j", "$i>-(1)", "$i<-0x10 + 20",
+		// the empty string is a key like any other; -1 is an index like any other (out of range)
+		"$me['']", "$me[$se]", "$me?['']", "$me['a']", "$m['']", "$m[$se] ?: 'none'", "$l[-1] ?: 'none'", "$l[0 - 1] ?: 'none'", "$me['' + '']",
 		"$ml.k[0] ?: 'none'", "$l[1]?.foo ?: 'none'", "$ml?.k?[0]", "$lm?[0]?[1]", "$m.c?.d?[0]", "isNonnull($l[1].foo)", "$ml.a[$ml.k.x]", "$lm[$m.a].foo", "$ml[$h]", "$lm[$m.a][$m.a]", "$ml.a[$h]", "$ml.k[$m.a]",
 		"$m['b']", "$m[$h]", "$l[$i - 6]", "$ll[1][0]", "$m.c.d", "$ij.s", "$ij['n'] + 1", "$ij?.zz?.y", "$t", "$t + $t", "[$t]", "['k': $t]"} {
 		add(pr(e), "hand", true)
